@@ -369,7 +369,9 @@ func Chains(j *job.Job, s *job.Sink) {
 
 // Malformed: clearly malformed restriction strings must be rejected.
 func Malformed(j *job.Job, s *job.Sink) {
-	bad := []string{"", "|", "1|", "|1", "..", "1..", "..5", "1..2..3", "a", "1..b", "1.5", "1..2|", "1 2", "--1", "1-2", "1...5", "min..", "..max", "5..1", "1..5|3..2", "1,5", "0x", "1e3"}
+	bad := []string{"", "|", "1|", "|1", "..", "1..", "..5", "1..2..3", "a", "1..b", "1.5", "1..2|", "1 2", "--1", "1-2", "1...5", "min..", "..max", "5..1", "1..5|3..2", "1,5", "0x", "1e3",
+		// sign forms: at most one sign, directly before the digits
+		"+-5..5", "0|+-3", "-+5", "++5", "+", "-", "- 5", "5-", "+-0x10..0", "1..+-2", "-", "1..-", "min..+", "-min", "+max"}
 	for i, str := range bad {
 		if i%j.Shards != j.Shard {
 			continue
